@@ -7,6 +7,7 @@ from .common import AnalysisError, Report
 from . import cxx, py
 from .gnf import (SymExec, Poly, compare_summaries, formula_str, poly_key_str, formula_atoms, valuations)
 from .ir import walk_stmts, walk_expr, all_exprs, show
+from .paths import path_of
 
 META = {
     'explanation': 'E-GNF: each hand-translated helper pair (compareEraToYearMonth, eraOverlapsInterval, getMostRecentPriorYear, '
@@ -195,7 +196,170 @@ def run(cfg):
     match_pair(R, lib, zs, sv)
     loop_rules(R, lib, zs)
     normal_form_rules(R, lib, zs)
+    window_rule(R, lib, zs)
+    reserved_slot_rule(R, lib)
     return R
+
+
+# -- recycled transition slots --------------------------------------------------------------------------------------------
+
+def reserved_slot_rule(R, lib):
+    """TransitionStorage::init() resets only the indices: a slot handed out by reservePrior() still holds the fields of an
+    earlier query.  Its `active` flag is the "no prior yet" sentinel of the reference (prior = None), so it has to be
+    cleared before anything reads it - directly or through getPrior()."""
+    from .paths import Engine, Rule
+    R.rule('R4', 'the slot returned by reservePrior() has its active flag cleared before it is read (directly or through getPrior())', floor=1)
+    memo = {}
+
+    def reads_prior(q, depth=0):
+        if q in memo:
+            return memo[q]
+        memo[q] = False
+        fs = lib.fns(q)
+        if not fs or depth > 3:
+            return False
+        for e in all_exprs(fs[0].body):
+            if e.k == 'call':
+                if e.a[0].endswith('::getPrior') or reads_prior(e.a[0], depth + 1):
+                    memo[q] = True
+                    break
+        return memo[q]
+
+    sites = 0
+    for q, fs in sorted(lib.funcs.items()):
+        for f in fs[:1]:
+            if not any(e.k == 'call' and e.a[0].endswith('::reservePrior') for e in all_exprs(f.body)):
+                continue
+            if q.endswith('::reservePrior'):
+                continue
+            sites += 1
+            c = '%s:reservePrior' % f.name
+
+            class SR(Rule):
+                def initial(self_):
+                    return [('none', None)]
+
+                def assign(self_, s, st, tr):
+                    if s.k == 'decl' and s.a[2] is not None:
+                        v = s.a[2]
+                        while v.k == 'cast':
+                            v = v.a[2]
+                        if v.k == 'call' and v.a[0].endswith('::reservePrior'):
+                            return ('uninit', s.a[0])
+                    if s.k == 'assign' and st[0] == 'uninit':
+                        tgt = s.a[0]
+                        if tgt.k == 'field' and tgt.a[1] == 'active' and path_of(tgt.a[0]) == st[1]:
+                            v = s.a[1]
+                            while v.k == 'cast':
+                                v = v.a[2]
+                            if v.k == 'const' and not v.a[0]:
+                                return ('clear', st[1])
+                            return ('set', st[1])
+                    return st
+
+                def event(self_, e, st, tr):
+                    if st[0] != 'uninit':
+                        return st
+                    if e.k == 'field' and e.a[1] == 'active' and path_of(e.a[0]) == st[1]:
+                        R.violation('R4', c, e.loc, 'reads %s->active of the slot taken with reservePrior() before it was cleared: the flag still '
+                                    'holds whatever an earlier query left there, so a stale "prior found" admits a wrong prior transition' % st[1], detail=list(tr))
+                        return ('reported', st[1])
+                    if e.k == 'call' and reads_prior(e.a[0]):
+                        R.violation('R4', c, e.loc, '%s() consults getPrior()->active, but the slot taken with reservePrior() has not been cleared on this path: '
+                                    'whether a candidate replaces the prior then depends on the previous query' % e.a[0].split('::')[-1], detail=list(tr))
+                        return ('reported', st[1])
+                    return st
+
+                def at_exit(self_, kind, stmt, st, tr):
+                    R.instance('R4', c, stmt.loc if stmt is not None else f.loc, 'exit in state %s' % st[0])
+            Engine(SR()).run(f.body)
+    if not sites:
+        raise AnalysisError('anchor vanished: no caller of TransitionStorage::reservePrior()')
+
+
+# -- match window ------------------------------------------------------------------------------------------------------------
+
+def window_rule(R, lib, zs):
+    """ExtendedZoneProcessor::init keys its cache on the UTC year of the query but matches eras and transitions in local
+    time, so it needs the 14-month window of the reference (previous December .. next January); both windows are read
+    as (year offset, month) pairs relative to the cache key."""
+    R.rule('R3', 'ExtendedZoneProcessor::init and ZoneSpecifier.init_for_year use the same match window [December before, February after) '
+                 'around the cache-key year', floor=3)
+    f = [x for x in lib.fns('ace_time::ExtendedZoneProcessor::init') if x.params and 'LocalDate' in (x.params[0][1] or '')][0]
+    s = SymExec(fold_global=lib.global_value).run(f.name, f.body, {})
+    epoch = lib.const('ace_time::LocalDate::kEpochYear')
+    cwin = None
+    key = None
+    for g, kind, res, eff in s.paths:
+        for n, v in eff:
+            if n == 'this.mYear':
+                key = _P(v)
+        for n, v in eff:
+            if n == 'call':
+                continue
+            for a in _P(v).atoms():
+                if a[0] == 'fn' and a[1].endswith('::findMatches') and len(a[2]) >= 3:
+                    tup = []
+                    for k in (a[2][-4], a[2][-3]):
+                        t = _atom(_P(k))
+                        if t is None or t[0] != 'init' or len(t[2]) != 2:
+                            tup = None
+                            break
+                        tup.append((_P(t[2][0]), _P(t[2][1])))
+                    if tup:
+                        cwin = tup
+    c = 'ExtendedZoneProcessor::init~ZoneSpecifier.init_for_year:window'
+    R.instance('R3', c, f.loc)
+    if cwin is None or key is None:
+        R.violation('R3', c, f.loc, 'init() does not pass two {year, month} tuples built from the cache-key year to findMatches()')
+        return
+    cw = []
+    for y, m in cwin:
+        d = y + Poly.const(epoch) - key
+        if not (d.is_const() and m.is_const()):
+            R.violation('R3', c, f.loc, 'window bound {%r, %r} is not (cache-key year + constant, constant month)' % (y, m))
+            return
+        cw.append((d.const_value(), m.const_value()))
+    # Python: the arm of init_for_year selected by the default viewing_months
+    pf = zs.fn('ZoneSpecifier.init_for_year')
+    ctor = zs.fn('ZoneSpecifier.__init__')
+    default = None
+    args = ctor.node.args
+    names = [a.arg for a in args.args]
+    if 'viewing_months' in names:
+        i = names.index('viewing_months') - (len(names) - len(args.defaults))
+        if i >= 0 and isinstance(args.defaults[i], ast.Constant):
+            default = args.defaults[i].value
+    R.instance('R3', 'ZoneSpecifier.__init__:viewing_months', ctor.loc, 'default %r' % default)
+    pw = None
+    for n in ast.walk(pf.node):
+        if isinstance(n, ast.If) and isinstance(n.test, ast.Compare) and 'viewing_months' in ast.unparse(n.test.left) \
+                and isinstance(n.test.ops[0], ast.Eq) and isinstance(n.test.comparators[0], ast.Constant) and n.test.comparators[0].value == default:
+            got = {}
+            for st in n.body:
+                if isinstance(st, ast.Assign) and isinstance(st.targets[0], ast.Name) and isinstance(st.value, ast.Call) and len(st.value.args) == 2:
+                    y, m = st.value.args
+                    off = None
+                    if isinstance(y, ast.Name) and y.id == 'year':
+                        off = 0
+                    elif isinstance(y, ast.BinOp) and isinstance(y.left, ast.Name) and y.left.id == 'year' and isinstance(y.right, ast.Constant):
+                        off = y.right.value if isinstance(y.op, ast.Add) else -y.right.value if isinstance(y.op, ast.Sub) else None
+                    if off is not None and isinstance(m, ast.Constant):
+                        got[st.targets[0].id] = (off, m.value)
+            if 'start_ym' in got and 'until_ym' in got:
+                pw = [got['start_ym'], got['until_ym']]
+    R.instance('R3', 'ZoneSpecifier.init_for_year:window', pf.loc, 'window %r' % (pw,))
+    if pw is None:
+        R.violation('R3', c, pf.loc, 'init_for_year has no arm for the default viewing_months=%r that sets start_ym and until_ym from year' % default)
+        return
+    if cw != pw:
+        R.violation('R3', c, f.loc, 'the C++ window is [year%+d month %d, year%+d month %d) but the reference uses [year%+d month %d, year%+d month %d): '
+                    'instants of the key year that fall in the uncovered local months find no transition (error offset) or a stale one'
+                    % (cw[0][0], cw[0][1], cw[1][0], cw[1][1], pw[0][0], pw[0][1], pw[1][0], pw[1][1]))
+    # independent of the reference: the key is the UTC year, local time is within 16 h of UTC on both sides
+    if not (cw[0] <= (-1, 12) and cw[1] >= (1, 2)):
+        R.violation('R3', c + ':cover', f.loc, 'the window [year%+d month %d, year%+d month %d) does not reach one month beyond both ends of the key year, '
+                    'but the key year is a UTC year and the matches are in local time' % (cw[0][0], cw[0][1], cw[1][0], cw[1][1]))
 
 
 def compare_pair(sc, sp, pc, pp, facts, constraint):
@@ -500,6 +664,23 @@ SELFTEST = [
          find='      if (upperBound < untilDate) {\n        untilDate = upperBound;\n      }', replace='', rule='R1', construct='createMatch'),
     dict(id='python-lookup-stops-on-equal', file='tools/zonedb/zone_specifier.py', find='            if start_time > dt_time:\n                break', replace='            if start_time >= dt_time:\n                break', rule='R1-loop'),
     dict(id='cpp-normalise-only-whole-days', file='src/ace_time/ExtendedZoneProcessor.h', find='      while (dt->minutes < 0) {', replace='      while (dt->minutes <= -kOneDayAsMinutes) {', rule='R2'),
+    dict(id='cpp-reserved-prior-not-cleared', file='src/ace_time/ExtendedZoneProcessor.h',
+         find='      (*prior)->active = false; // indicates "no prior transition"\n', replace='', rule='R4'),
+    dict(id='cpp-reserved-prior-cleared-inside-loop', file='src/ace_time/ExtendedZoneProcessor.h', regex=True,
+         find=r'      \(\*prior\)->active = false; // indicates "no prior transition"\n(      for \(uint8_t r = 0; r < numRules; r\+\+\) \{\n        const extended::ZoneRuleBroker rule = policy.rule\(r\);\n)',
+         replace=r'\1        (*prior)->active = false;\n', rule='R4'),
+    dict(id='cpp-reserved-prior-set-true', file='src/ace_time/ExtendedZoneProcessor.h',
+         find='      (*prior)->active = false; // indicates "no prior transition"\n', replace='      if (numRules == 0) (*prior)->active = false;\n', rule='R4'),
+    dict(id='cpp-reserved-prior-renamed-silent', file='src/ace_time/ExtendedZoneProcessor.h', regex=True,
+         find=r'(      extended::Transition\*\* )prior( = transitionStorage.reservePrior\(\);\n      \(\*)prior(\)->active = false;.*?      if \(\(\*)prior(\)->active\) \{)',
+         replace=r'\1slot\2slot\3slot\4', expect='silent'),
+    dict(id='cpp-window-starts-in-january', file='src/ace_time/ExtendedZoneProcessor.h',
+         find='        (int8_t) (year - LocalDate::kEpochYear - 1), 12 };', replace='        (int8_t) (year - LocalDate::kEpochYear), 1 };', rule='R3'),
+    dict(id='cpp-window-ends-in-january', file='src/ace_time/ExtendedZoneProcessor.h',
+         find='        (int8_t) (year - LocalDate::kEpochYear + 1), 2 };', replace='        (int8_t) (year - LocalDate::kEpochYear + 1), 1 };', rule='R3'),
+    dict(id='python-default-window-13', file='tools/zonedb/zone_specifier.py', find='            viewing_months: int = 14,', replace='            viewing_months: int = 13,', rule='R3'),
+    dict(id='cpp-window-year-spelling-silent', file='src/ace_time/ExtendedZoneProcessor.h',
+         find='        (int8_t) (year - LocalDate::kEpochYear - 1), 12 };', replace='        (int8_t) (year - 1 - LocalDate::kEpochYear), 12 };', expect='silent'),
     dict(id='python-compare-rewritten-silent', file='tools/zonedb/zone_specifier.py',
          find='    if match_until <= transition_time:\n        return 2\n\n    return 1', replace='    if transition_time < match_until:\n        return 1\n    return 2', expect='silent'),
     dict(id='cpp-era-compare-reordered-silent', file='src/ace_time/ExtendedZoneProcessor.h',
